@@ -112,7 +112,8 @@ def traced_main(cfg_path, out):
 
 def compare_rasters(out, box, georef):
     import rasterio
-    obs = {"values_equal_products": True, "dtype_float32": True, "mask_dtype_uint16": True, "band_names_are_indicators": True, "georeferencing_kept": True}
+    obs = {"values_equal_products": True, "dtype_float32": True, "mask_dtype_uint16": True, "band_names_are_indicators": True, "georeferencing_kept": True,
+           "product_files_present": True, "single_band_rasters": True}
     def geo_ok(f, side):
         # every product of a side carries the georeferencing of THAT side's input image (the two images of a pair need
         # not share a geotransform)
@@ -128,17 +129,18 @@ def compare_rasters(out, box, georef):
         expected_files = [f"{side}_disparity.tif", f"{side}_validity_mask.tif"] + ([f"{side}_confidence_measure.tif"] if "confidence_measure" in ds.data_vars else [])
         missing = [f for f in expected_files if not os.path.exists(os.path.join(out, f))]
         if missing:
-            obs["values_equal_products"] = False
-            obs["missing_files"] = missing
+            obs["product_files_present"] = False
             continue
         with rasterio.open(os.path.join(out, f"{side}_disparity.tif")) as f:
             obs["values_equal_products"] &= same_bits(f.read(1), np.asarray(ds["disparity_map"].data, dtype=np.float32))
             obs["dtype_float32"] &= f.dtypes[0] == "float32"
+            obs["single_band_rasters"] &= f.count == 1
             obs["georeferencing_kept"] &= geo_ok(f, side)
         with rasterio.open(os.path.join(out, f"{side}_validity_mask.tif")) as f:
             obs["georeferencing_kept"] &= geo_ok(f, side)
             obs["values_equal_products"] &= bool(np.array_equal(f.read(1), np.asarray(ds["validity_mask"].data).astype(np.uint16)))
             obs["mask_dtype_uint16"] &= f.dtypes[0] == "uint16"
+            obs["single_band_rasters"] &= f.count == 1
         if "confidence_measure" in ds.data_vars:
             with rasterio.open(os.path.join(out, f"{side}_confidence_measure.tif")) as f:
                 obs["georeferencing_kept"] &= geo_ok(f, side)
@@ -170,7 +172,7 @@ def run(tier):
         rows, cols = int(rng.randint(8, 14)), int(rng.randint(12, 20))
         nb = 1 if k % 3 else 2
         georef = ({"left": ("EPSG:32631", from_origin(500000.0, 4000000.0, 0.5, 0.5)),
-                   "right": ("EPSG:32631", from_origin(500000.0 + [0.0, 12.5][int(k % 4 == 1 or (k // 2) % 2 == 1)], 4000000.0, 0.5, 0.5))}
+                   "right": (["EPSG:32631", "EPSG:32632"][int(k % 4 == 1)], from_origin(500000.0 + [0.0, 12.5][int(k % 4 == 1 or (k // 2) % 2 == 1)], 4000000.0, 0.5, 0.5))}
                   if (k % 2 == 0 or k % 4 == 1) else None)
         L = rng.randint(0, 200, size=(nb, rows, cols)).astype(np.float32)
         R = np.roll(L, 1, axis=2)
